@@ -46,19 +46,20 @@ def write_dataset(dirpath, pdf_rows, emin, emax, qbb, isotope='Test', mode='g0')
             'e1_cdf': [t[0] for t in app.tab_ncdf], 'e2_cdf': [t[1] for t in app.tab_ncdf]}
 
 
-def default_rows(n):
+def default_rows(n, salt=0):
     rows = []
     for i in range(n):
-        rows.append([1.0 + 0.5 * ((i * 7 + j * 3) % 5) for j in range(n - i)])
+        rows.append([1.0 + 0.5 * ((i * 7 + j * 3 + salt) % 5) for j in range(n - i)])
     return rows
 
 
 def install_tree(root, n=4, emin=0.1, emax=2.5, qbb=3.0):
     """a complete BXDECAY0_DBD_GA_DATA_DIR tree (4 nuclides x 4 processes + Test) of one small dataset"""
     info = None
-    for nuc in ('Se82', 'Mo100', 'Cd116', 'Nd150', 'Test'):
-        for proc in ('g0', 'g2', 'g22', 'g4'):
-            info = write_dataset(os.path.join(root, 'data/dbd_gA/v1.0', nuc, proc), default_rows(n), emin, emax, qbb, nuc, proc)
+    # every (nuclide, process) pair gets a table of its own, so that a generator reading the wrong one shows
+    for a, nuc in enumerate(('Se82', 'Mo100', 'Cd116', 'Nd150', 'Test')):
+        for b, proc in enumerate(('g0', 'g2', 'g22', 'g4')):
+            info = write_dataset(os.path.join(root, 'data/dbd_gA/v1.0', nuc, proc), default_rows(n, salt=a + 2 * b + a * b), emin, emax + 0.05 * b, qbb + 0.1 * a, nuc, proc)
     return info
 
 
